@@ -1,6 +1,26 @@
-"""Provider of valid bit files (TEMPORARY: example files only, until the generator lands)."""
-from . import example_files
+"""Provider of valid Western Atlas BIT files from the independent generator tdv.gen.bit (plus the example file)."""
+from . import bit as gbit, example_files
+from .providers import Valid
+
+
+def _make(rng, convertible=False, scale=1):
+    if scale == 1 and rng.random() < 0.05:
+        return example_files.example(rng, 'bit')
+    for _ in range(50):
+        if scale > 1:
+            data, model = gbit.random_file(rng, passes=rng.choice([2, 3, 4]), max_block=64, max_blocks=8)
+        else:
+            data, model = gbit.random_file(rng, max_block=rng.choice([4, 16, 64]), max_blocks=rng.choice([2, 4, 8]))
+        if not convertible or all(pm.frames >= 2 for pm in model.passes):
+            break
+    bounds = sorted({m[0] for m in model.markers})
+    v = Valid(data, 'BIT', {'passes': [(pm.channels, pm.frames, pm.block_frames[:6]) for pm in model.passes]}, nontrivial=True,
+              classes=['%d-pass' % min(len(model.passes), 3), 'max-channels' if any(pm.channels == 20 for pm in model.passes) else 'channels<20'],
+              boundaries=bounds, regen=lambda rng2: _make(rng2, convertible, scale=10))
+    v.expect_las = len(model.passes)
+    v.model = model
+    return v
 
 
 def bit(rng, convertible=False):
-    return example_files.example(rng, 'bit')
+    return _make(rng, convertible)
